@@ -81,7 +81,7 @@ Theorem C18_trailing_empty_chunk_refuted :
   Forall entry_fits [EDFile t0 5] /\ ~ tail_nonempty [(5, true); (0, false)] /\
   boss_run Saturating false false [] [EDFile t0 5] [[(5, true); (0, false)]] = Panic e_assert_total.
 Proof. exact trailing_empty_chunk_refuted. Qed.
-Theorem C18_trailing_empty_chunk_marker_refuted :
+Theorem C18_trailing_empty_chunk_marker_refuted : usual_constants ->
   boss_run Saturating true false [] [EDFile t0 10] [[(10, true); (0, true); (0, false)]] = Panic e_assert_copy.
 Proof. exact trailing_empty_chunk_marker_refuted. Qed.
 
@@ -101,6 +101,9 @@ Theorem C18_unfixed_totals_refuted :
   stats_total Saturating 0 [9223372036854775807; 9223372036854775807; 9223372036854775807] = Ok u64_max.
 Proof. exact unfixed_totals_refuted. Qed.
 
+(* The model's constants are the ones the running code reports (so every theorem above is re-checked
+   for whatever values the code has); [usual_constants] says they are the 1 MiB of today - only the two
+   computed illustrations that mention it depend on that. *)
 Theorem C18_progress_constants_match_code :
   min_file_size = impl_min_file_size /\ delete_work = impl_delete_work /\ marker_threshold = impl_marker_threshold.
 Proof. exact progress_constants_match_code. Qed.
@@ -185,10 +188,12 @@ Example C18_progress_example :
   let copies := [EDFolder; EDSymlink SKFile (STNormalized []); EDFile t0 0; EDFile t0 10; EDFile t0 3145728] in
   let answers := [[(0, false)]; [(4, true); (6, false)]; [(1048576, true); (2097152, false)]] in
   Forall tail_nonempty answers /\
-  boss_run Saturating true false dels copies answers =
+  is_ok (boss_run Saturating true false dels copies answers) = true /\
+  (usual_constants ->
+   boss_run Saturating true false dels copies answers =
     Ok [mkMarker 1048576 (PDeleting 1); mkMarker 2097152 (PCopying 0 0); mkMarker 3145728 (PCopying 1 0);
         mkMarker 4194304 (PCopying 2 0); mkMarker 5242880 (PCopying 3 0); mkMarker 6291456 (PCopying 4 10);
-        mkMarker 7340032 (PCopying 4 1048586); mkMarker 9437184 PDone].
+        mkMarker 7340032 (PCopying 4 1048586); mkMarker 9437184 PDone]).
 Proof. exact progress_example. Qed.
 
 Example C18_hist_example :
